@@ -69,8 +69,13 @@ class ModuleInfo:
             elif isinstance(item, ast.FunctionDef):
                 self.functions[item.name] = item
             elif isinstance(item, (ast.Import, ast.ImportFrom)):
+                modname = getattr(item, "module", None)
+                level = getattr(item, "level", 0)
+                if level:
+                    pkg = relpath[:-3].replace("/", ".").split(".")[:-level]
+                    modname = ".".join(pkg + ([modname] if modname else []))
                 for a in item.names:
-                    self.imports[a.asname or a.name.split(".")[0]] = (getattr(item, "module", None), a.name)
+                    self.imports[a.asname or a.name.split(".")[0]] = (modname if isinstance(item, ast.ImportFrom) else None, a.name)
             elif isinstance(item, ast.Assign) and len(item.targets) == 1 and isinstance(item.targets[0], ast.Name):
                 self.globals_assign[item.targets[0].id] = item.value
             elif isinstance(item, ast.If):
